@@ -62,6 +62,10 @@ def histories(strict=False, guaranteed_bias=False, max_ticks=40):
         "mtu_raise": st.sampled_from([False, False, True]),
         # where the (virtual) clock starts: a small number, or a present-day epoch value (float spacing 2.4e-7 s)
         "t0": st.sampled_from([1000.0, 1000.0, 1.7e9]),
+        # the client's socket refuses a few datagrams (BlockingIOError from sendto: full send buffer of a non-blocking socket);
+        # the numbers count the client's sendto() calls from the start of the adversarial phase.  The unchanged library lets
+        # the exception reach the application, which carries on; for the protocol the datagram is lost before the wire
+        "send_faults": st.one_of(st.just([]), st.just([]), st.lists(st.integers(1, 120), min_size=1, max_size=4, unique=True)),
         "burst": st.one_of(st.none(), st.none(), st.none(), st.fixed_dictionaries({
             "tick": st.integers(0, max_ticks), "side": st.sampled_from(["c", "s"]), "count": st.sampled_from([40, 257, 300, 420]),
             "size": st.sampled_from([0, 1, 8, 30]), "retry": st.sampled_from([0, 1, -1])})),
@@ -157,6 +161,9 @@ def run(ctx, c, oracle, per_step=None, link_setup=None, payload_fn=None):
             link_setup(link, f)
         link.t_base = w.clock.t
         w.net.policy = link
+        if c.get("send_faults"):
+            ch.arm_send_faults(c["send_faults"])
+        f.ch_faults = ch.send_fault_log
         uid = 0
         f.recs = list(pre)
         total_bytes = 0
@@ -185,6 +192,7 @@ def run(ctx, c, oracle, per_step=None, link_setup=None, payload_fn=None):
         if c["strict"]:
             client_every = min(client_every, 3)
         nstep = [0]
+        f.client_frame_dt = c["dt"] * client_every
 
         def step():
             nstep[0] += 1
